@@ -35,12 +35,22 @@ DeclShapeOK(d) ==
     /\ Len(impls) < MaxImpl
     /\ \A c \in Rng(d.cs) : c \in Ctx
     /\ IF d.k = "viaimpl" THEN d.j \in DOMAIN impls /\ d.cs = <<>> ELSE d.cs # <<>> /\ d.j = 0
+    /\ d.lvl \in 0..levels
 
 AfterReg == RegState(Ev.d, impls, handlers, ignore, pointDeps)
 
 RegIgnoreOK   == \A i \in DOMAIN Ev.ignore : i \in 1..MaxImpl /\ AfterReg.ignore[i] = Rng(Ev.ignore[i])
 RegHandlersOK == \A c \in DOMAIN Ev.handlers : c \in Ctx /\ AfterReg.handlers[c] = Ev.handlers[c]
-RegDepsOK     == AfterReg.pointDeps = Ev.deps
+(* Ev.deps: one list per level 0..levels (0 = the point of the next level, 99 = anything else) *)
+DepsAre(P)    == Len(Ev.deps) = levels + 1 /\ \A q \in 0..levels : P[q] = Ev.deps[q + 1]
+RegDepsOK     == DepsAre(AfterReg.pointDeps)
+
+(* noop: a class definition that must NOT register anything (a datasource of the spec's name in a    *)
+(* sub-subclass of an implementation class: its base declares no registry point)                     *)
+NoopOK == Ev.check => /\ Len(Ev.ignore) = Len(impls)
+                      /\ \A i \in DOMAIN Ev.ignore : ignore[i] = Rng(Ev.ignore[i])
+                      /\ \A c \in DOMAIN Ev.handlers : c \in Ctx /\ handlers[c] = Ev.handlers[c]
+                      /\ DepsAre(pointDeps)
 
 (* A history is validated twice: once with check = TRUE (the registries after each registration are  *)
 (* the state RegisterImpl leaves: mechanism conformance), once with check = FALSE followed by the    *)
@@ -77,6 +87,7 @@ DagOK ==
 
 Accepts ==
     CASE Ev.ev = "reg"  -> RegOK
+      [] Ev.ev = "noop" -> NoopOK
       [] Ev.ev = "eval" -> EvalOK
       [] Ev.ev = "dag"  -> DagOK
       [] OTHER -> FALSE
@@ -85,16 +96,19 @@ Apply ==
     CASE Ev.ev = "reg" ->
            /\ impls' = AfterReg.impls /\ handlers' = AfterReg.handlers
            /\ ignore' = AfterReg.ignore /\ pointDeps' = AfterReg.pointDeps
-           /\ UNCHANGED <<phase, ev>>
+           /\ UNCHANGED <<phase, ev, levels>>
       [] OTHER -> UNCHANGED vars
 
 (* ---- diagnosis: failing clause + abstract features of the failing case ---- *)
 KindOf(j) == IF j \in DOMAIN impls THEN impls[j].k ELSE "none"
+(* level features: is the implementation attached to a re-declared (refined) point *)
+LvlTag(d) == IF d.lvl > 0 THEN "@refined" ELSE ""
+LvlOf(j)  == IF j \in DOMAIN impls /\ impls[j].lvl > 0 THEN "@refined" ELSE ""
 DiagReg ==
     IF ~DeclShapeOK(Ev.d) \/ Len(Ev.ignore) # Len(impls) + 1 THEN "reg.shape"
-    ELSE IF ~RegDepsOK THEN "Reg.pointDeps:" \o Ev.d.k
-    ELSE IF ~RegHandlersOK THEN "Reg.handlers:" \o Ev.d.k
-    ELSE "Reg.ignore:" \o Ev.d.k
+    ELSE IF ~RegDepsOK THEN "Reg.pointDeps:" \o Ev.d.k \o LvlTag(Ev.d)
+    ELSE IF ~RegHandlersOK THEN "Reg.handlers:" \o Ev.d.k \o LvlTag(Ev.d)
+    ELSE "Reg.ignore:" \o Ev.d.k \o LvlTag(Ev.d)
 
 DiagEval ==
     IF ~EvalShapeOK THEN "eval.shape"
@@ -108,11 +122,12 @@ DiagEval ==
          IN "OtherContextsSilent:" \o KindOf(j) \o (IF Ev.pval = j THEN ":supplies-value" ELSE ":executed"))
     ELSE IF ~EarlierOK THEN
         (LET j == CHOOSE j \in DOMAIN impls : A \in DeclFor(j) /\ j < Latest(A) /\ j \in Cd
-         IN "EarlierNotExecuted:earlier-" \o KindOf(j) \o ":latest-" \o KindOf(Latest(A)))
+         IN "EarlierNotExecuted:earlier-" \o KindOf(j) \o LvlOf(j) \o ":latest-" \o KindOf(Latest(A)) \o LvlOf(Latest(A)))
     ELSE IF ~BackfillOK THEN
-        "AbsentNotBackfilled:latest-" \o KindOf(Latest(A)) \o ":filled-from-" \o KindOf(Ev.pval)
-    ELSE "ResolvesToLatest:latest-" \o KindOf(Latest(A)) \o
-         (IF Ev.pval = 0 THEN ":absent" ELSE IF Ev.pval = Other THEN ":foreign-value" ELSE ":value-of-earlier-" \o KindOf(Ev.pval))
+        "AbsentNotBackfilled:latest-" \o KindOf(Latest(A)) \o LvlOf(Latest(A)) \o ":filled-from-" \o KindOf(Ev.pval) \o LvlOf(Ev.pval)
+    ELSE "ResolvesToLatest:latest-" \o KindOf(Latest(A)) \o LvlOf(Latest(A)) \o
+         (IF Ev.pval = 0 THEN ":absent" ELSE IF Ev.pval = Other THEN ":foreign-value"
+          ELSE ":value-of-earlier-" \o KindOf(Ev.pval) \o LvlOf(Ev.pval))
 
 DiagDag ==
     LET a == CHOOSE a \in 1..Ev.nctx :
@@ -125,20 +140,26 @@ DiagDag ==
 
 Diagnose ==
     CASE Ev.ev = "reg"  -> DiagReg
+      [] Ev.ev = "noop" -> "Reg.unregistered-deep-subclass-changed-the-registries"
       [] Ev.ev = "eval" -> DiagEval
       [] Ev.ev = "dag"  -> DiagDag
       [] OTHER -> "unknown-event"
 
+LevelsOf(t) == IF t.kind = "gen" THEN t.levels ELSE 0
 Fresh ==
     /\ phase' = "reg" /\ impls' = <<>> /\ handlers' = [c \in Ctx |-> <<>>]
-    /\ ignore' = [i \in 1..MaxImpl |-> {}] /\ pointDeps' = <<>> /\ ev' = NoEval
+    /\ ignore' = [i \in 1..MaxImpl |-> {}] /\ levels' = LevelsOf(Batch[tid + 1])
+    /\ pointDeps' = FreshDeps(LevelsOf(Batch[tid + 1])) /\ ev' = NoEval
 
 Advance ==
     IF tid < Len(Batch)
       THEN tid' = tid + 1 /\ l' = 0 /\ Fresh
       ELSE tid' = Len(Batch) + 1 /\ l' = 0 /\ UNCHANGED vars
 
-TraceInit == tid = 1 /\ l = 0 /\ Init
+TraceInit ==
+    /\ tid = 1 /\ l = 0
+    /\ phase = "reg" /\ impls = <<>> /\ handlers = [c \in Ctx |-> <<>>] /\ ignore = [i \in 1..MaxImpl |-> {}]
+    /\ levels = LevelsOf(Batch[1]) /\ pointDeps = FreshDeps(LevelsOf(Batch[1])) /\ ev = NoEval
 
 TraceNext ==
     /\ tid <= Len(Batch)
